@@ -280,7 +280,7 @@ func dischargeAll(units []*UnitResult, dir string, timeout time.Duration, seed i
 			defer wg.Done()
 			for j := range ch {
 				discharge(j.vc, j.o, dir, timeout, seed)
-				if !j.o.Vacuity && (j.o.Result == "unknown" || j.o.Result == "timeout") {
+				if !j.o.Vacuity && j.o.knownProbe == nil && (j.o.Result == "unknown" || j.o.Result == "timeout") {
 					// one retry with a longer limit before an obligation is reported as undischarged
 					first := j.o.Seconds
 					discharge(j.vc, j.o, dir, 3*timeout, seed+1)
